@@ -277,12 +277,18 @@ AGG_CELLS = {
     'T6': '=AVERAGE(B1:B4,A1:A4)', 'T7': '=MIN(B4,A1:B3)', 'T8': '=MAX(A1:A4,B1:B4)',
     'U1': '=SUMPRODUCT(B1:B4,B1:B4)', 'U2': '=SUMPRODUCT(A1:A2,B1:B4)', 'U3': '=SUMPRODUCT(B1:B2,B3:B4)',
     'L1': '=SUM(C1:C2)', 'L2': '=SUM(C1:C1)+SUM(C2:C2)', 'L3': '=SUM(C3:C4)', 'L4': '=SUM(C3,C4)', 'L5': '=SUM(C3:C3,1000)', 'L6': '=MAX(C1:C4)',
+    # ranges that end in blanks keep their shape; ranges of another sheet next to unqualified ones, in both orders
+    'E1': 1, 'E2': 2, 'U4': '=SUMPRODUCT(E1:E4,B1:B4)', 'U5': '=SUMPRODUCT(E1:E4,E1:E2)', 'U6': '=SUMPRODUCT(B1:B4,E1:E4)', 'U7': '=SUMPRODUCT(E1:E4,E1:E4)',
+    'Other!A1': 10, 'Other!A2': 20, 'Other!B1': 1000, 'Other!B2': 2000, 'V1': '=SUM(Other!A1:A2,B1:B2)', 'V2': '=SUM(B1:B2,Other!A1:A2)',
+    'V3': '=MAX(Other!A1:A2)+B1', 'V4': '=SUM(Other!A1:A2)+SUM(B1:B2)', 'V5': '=AVERAGE(Other!A1:A2,B1)', 'V6': '=SUM(Other!A1:A2,B1,B2)',
+    'V7': '=MIN(Other!A1:B2,B1:B4)', 'V8': '=COUNT(Other!A1:A2,B1:B4,E1:E4)',
     'H1': '=SUM(D1:D2,D3)', 'H2': '=MAX(D1:D3)', 'H3': '=AVERAGE(D1:D3)', 'H4': '=MIN(D1:D3)+COUNT(D1:D3)',
 }
 AGG_EXPECTED = {
     'S1': 11.5, 'S2': 11.5, 'S3': 11.5, 'S4': 11.5, 'S5': 11.5, 'S6': 11.5, 'T1': 11.5 / 6, 'T2': -3, 'T3': 7, 'T4': 6, 'T5': 7, 'T6': 11.5 / 6,
     'T7': -3, 'T8': 7, 'U1': 65.25, 'U2': '#VALUE!', 'U3': 2.5 * 7 - 3,
     'L1': 2 ** 63, 'L2': 2 ** 63, 'L3': 2 ** 63 + 999, 'L4': 2 ** 63 + 999, 'L5': 2 ** 63 + 999, 'L6': 2 ** 63 - 1,
+    'U4': -3.5, 'U5': '#VALUE!', 'U6': -3.5, 'U7': 5, 'V1': 29.5, 'V2': 29.5, 'V3': 22.5, 'V4': 29.5, 'V5': 32.5 / 3, 'V6': 29.5, 'V7': -3, 'V8': 8,
     'H1': 13, 'H2': 14, 'H3': 13 / 3, 'H4': -3,
 }
 
@@ -308,7 +314,7 @@ def rule_7(ctx):
     hist = {k: v for k, v in AGG_CELLS.items() if k[0] in 'ABD' or k in ('H1', 'H2', 'H3', 'H4', 'S1', 'T2', 'T1', 'U1')}
     S.check_history(ctx, anchor, 'aggregate history', hist, steps, cache={}, check_stored=False,
                     why='An aggregate is the fold of the values its cells hold now.')
-    ctx.floor(40, 'aggregate cells + history steps')
+    ctx.floor(52, 'aggregate cells + history steps')
 
 
 def V_registered(ctx, name):
